@@ -145,6 +145,10 @@ def draw_rail(draw, model, counter, own_name, current=""):
         return current, "rail_unchanged"
     if r == 10 and len(current) > 1:
         return current[:-1], "rail_prefix_of_current"
+    if r == 11 and current:
+        sub = [x for x in rails + names if x != current and x in current]
+        if sub:
+            return draw(st.sampled_from(sub)), "rail_taken_substring_of_current"
     return "rail{}".format(counter), "fresh"
 
 
@@ -159,6 +163,8 @@ def draw_target(draw, model, allow_unknown=True, prefer=None):
         return draw(st.sampled_from(rails)), "by_rail"
     if prefer == "nonload":
         cand = [n["name"] for n in model["nodes"] if n["kind"] not in S.LOADS]
+        if r in (2, 3, 4):
+            return cand[-1], "by_name"  # the most recently added one: deep chains
         return draw(st.sampled_from(cand)), "by_name"
     if prefer == "mux" and r < 5:
         mux = [n for n in model["nodes"] if n["kind"] == "PMux"]
@@ -232,6 +238,8 @@ def draw_op(draw, model, counter):
             pool2 = nonload if draw(st.integers(0, 9)) < 7 else names
             k = min(k, len(pool2))
             picks = draw(st.lists(st.sampled_from(pool2), min_size=k, max_size=k, unique=True))
+            if nonload and draw(st.booleans()) and nonload[-1] not in picks:
+                picks[0] = nonload[-1]  # the deepest / newest element as first input
             refs = []
             for pn in picks:
                 if nm[pn]["rail"] and draw(st.booleans()):
@@ -1021,8 +1029,11 @@ class Driver:
             stats.cls("aborted:out_of_sync")
             return "abort"
         if "C16" in self.focus and raised is None:
-            # every c16_every-th accepted step, and at once after a rename / delete / mux edit
-            if self.steps_ok % self.c16_every == 0 or tag:
+            # every c16_every-th accepted step, and after about half of the renames / deletes /
+            # mux edits at once (the other half is checked one or more edits later, so that
+            # sequences of edits without any analysis in between are explored too)
+            soon = tag and (len(self.ops) * 7 + self.steps_ok) % 2 == 0
+            if self.steps_ok % self.c16_every == 0 or soon:
                 self.check_c16()
                 self.unchecked = 0
             else:
